@@ -204,20 +204,29 @@ def restoreCosts (c : List α) (a : List (List α)) (b : List α) (basis : List 
     let coefficient := nth st.1 vr.1
     (rowSubMul coefficient st.1 (row a vr.2), sub st.2 (mul coefficient (nth b vr.2)))) (c, zero)
 
+/-- `c[j] -= coefficient` for every `j` of the row. -/
+def subRow : List α → List α → List α
+  | x :: xs, p :: ps => sub x p :: subRow xs ps
+  | xs, [] => xs
+  | [], _ => []
+
+/-- the phase-1 tableau of `into_tableau_two_phase`: one artificial column per row (basic), phase-1 costs
+`Σ artificials` brought into canonical form by subtracting the rows one after the other. -/
+def phase1Tab (sm : StdModel α) : Tab α :=
+  let m := sm.rows.length
+  let n := sm.vars.length
+  let b := sm.rows.map (·.rhs)
+  let a1 := sm.rows.zipIdx.map fun (r, i) => (Standardize.resize r.coeffs (n + m) zero).set (i + n) one
+  let c0 : List α := List.replicate n zero ++ List.replicate m one
+  { c := a1.foldl (fun c r => subRow c r) c0, a := a1, b := b, basis := (List.range m).map (· + n),
+    value := b.foldl (fun v bi => sub v bi) zero, offset := sm.offset, flip := sm.flip }
+
 /-- `into_tableau_two_phase`. -/
 def twoPhase (tol : α) (stallExtra phase1Limit : Nat) (sm : StdModel α) : Except CanonErr (Tab α) :=
   let m := sm.rows.length
   let n := sm.vars.length
-  let b := sm.rows.map (·.rhs)
-  -- artificial columns, and the phase-1 costs in canonical form (rows subtracted one after the other)
-  let a1 := sm.rows.zipIdx.map fun (r, i) => (Standardize.resize r.coeffs (n + m) zero).set (i + n) one
-  let c0 : List α := List.replicate n zero ++ List.replicate m one
-  let c1 := a1.foldl (fun c r => subRow c r) c0
-  let v1 := b.foldl (fun v bi => sub v bi) zero
-  let T1 : Tab α := { c := c1, a := a1, b := b, basis := (List.range m).map (· + n), value := v1,
-                      offset := sm.offset, flip := sm.flip }
   let art := (List.range m).map (· + n)
-  let out := solve tol stallExtra phase1Limit art T1
+  let out := solve tol stallExtra phase1Limit art (phase1Tab sm)
   match out.result with
   | .error e => .error (.simplexError e)
   | .ok () =>
@@ -231,12 +240,6 @@ def twoPhase (tol : α) (stallExtra phase1Limit : Nat) (sm : StdModel α) : Exce
     if !(newBasis.all (· < n)) then .error .invalidBasis else
     let (newC, value) := restoreCosts sm.objective newA newB newBasis
     .ok { c := newC, a := newA, b := newB, basis := newBasis, value := value, offset := sm.offset, flip := sm.flip }
-where
-  /-- `c[j] -= coefficient` for every `j` of the row. -/
-  subRow : List α → List α → List α
-    | x :: xs, p :: ps => sub x p :: subRow xs ps
-    | xs, [] => xs
-    | [], _ => []
 
 /-- `into_tableau`. -/
 def intoTableau (tol : α) (stallExtra phase1Limit : Nat) (sm : StdModel α) : Except CanonErr (Tab α) :=
